@@ -117,25 +117,30 @@ def run_rules(ctx, chk):
     # ---- P5 who may store the generation / version
     n_sites = 0
     writers = {}
+    seen = set()
+    has_store = {b.path for b in fb.bodies() if any(fn and atomic_kind(mir.callee_name(fn)) in ATOMIC_WRITES for bb, t, fn in common.user_calls(b))}
     for b in fb.bodies():
         if b.crate.kind == 'bin' and b.crate.name == 'clockbound_client_rust_example':
             continue
         sites = [bb for bb, t, fn in common.user_calls(b) if fn and atomic_kind(mir.callee_name(fn)) in ATOMIC_WRITES]
         if not sites:
             continue
-        eng = common.mk_engine(fb, no_inline=lambda x: True)
-        seen = set()
+        from .startup_model import is_reader_new
+        eng = common.mk_engine(fb, inline_depth=8, no_inline=is_reader_new)
         for p in eng.run(b):
             for e in classify_effects(p):
+                owner = e.ef['site'][0].split('::{closure')[0]
                 if e.kind in ('gstore', 'vstore', 'astore') and e.site not in seen:
+                    if owner != b.path and owner in has_store:
+                        continue        # classified with its own function as the root
                     seen.add(e.site)
                     n_sites += 1
-                    writers.setdefault(b.path, []).append((e.kind, e.site, fmt(e.value)[:40] if e.value else None))
+                    writers.setdefault(owner, []).append((e.kind, e.site, fmt(e.value)[:40] if e.value else None))
     allowed_gen = {w.body.path}
     for path, lst in writers.items():
         for kind, site, val in lst:
             if kind == 'gstore':
-                chk.ob('C11.P5', 'generation-store-in:%s' % path.split('::')[-1], path in allowed_gen, site,
+                chk.ob('C11.P5', 'generation-store-in:%s' % path.split('::')[-1], common.only_reached_from(fb, path, allowed_gen), site,
                        '%s stores the generation (%s)' % (path, val))
             elif kind == 'astore':
                 chk.ob('C11.P5', 'unclassified-atomic-store-in:%s' % path.split('::')[-1], False, site,
